@@ -1,4 +1,4 @@
-import GrVerif.Proofs.HeapAssoc
+import GrVerif.Proofs.PassAssoc
 import GrVerif.Props.C12
 import GrVerif.Model.Assoc
 /-!
@@ -14,9 +14,14 @@ in `[0, n)`.  Proved: the invariant holds after **every** action program (any in
 any outcome) and its garbage collection – `insert` and `assoc` only ever copy association values of existing slots
 (`action_assoc_in_range`), and the single-opcode step is exported as `every_opcode_keeps_ranges`.
 
+The same for the **whole modelled pipeline** (`pipeline_assoc_in_range`): `read_text` associates slot `k` with character
+`k`; the matcher, `adjustSlot`, the rule loop and the pass sequencing never write the segment (`runRange_keeps`); and
+`associateChars` only ever widens a slot's range, never beyond the characters of the segment (`associateChars_ranges`).
+
 *Second sentence, character side* (`associateChars`): the function is modelled (`Model/Assoc.lean`, including the repair
-of the one-sided case) and tied to the code by correspondence; the coverage clause and the char-info ranges are decided
-on the implementation's output by the predicate of `tools/props/c05.py`, not yet by a theorem.  On the pinned tree the
+of the one-sided case) and tied to the code by correspondence.  Proved: every char-info's `before`/`after` is a slot
+index of the stream or −1 (`cinfo_values_are_slot_indices`).  The coverage clause (no −1 left, every character inside
+some slot's range) is decided on the implementation's output by the predicate of `tools/props/c05.py`, not yet by a theorem.  On the pinned tree the
 coverage clause fails for fonts whose positioning passes contain `ASSOC`/`PUT_COPY` (known finding D-9).
 -/
 set_option linter.unusedVariables false
@@ -30,6 +35,28 @@ theorem action_assoc_in_range {n : Int} (hn : 0 < n) (is : List Instr) (dl : Boo
     ∀ j, 0 ≤ (c.seg.get j).before ∧ (c.seg.get j).before < n ∧ 0 ≤ (c.seg.get j).after ∧ (c.seg.get j).after < n ∧
       0 ≤ (c.seg.get j).original ∧ (c.seg.get j).original < n :=
   (doAction_assoc hn is dl mr data ctx h e).1
+
+/-- **C05 (slot ranges, whole pipeline).** For every font – any passes, rules, constraint and action programs – and every
+non-empty text of `n` characters: each slot record of a segment the modelled pipeline returns has `before`, `after` and
+`original` in `[0, n)`. -/
+theorem pipeline_assoc_in_range (font : Pass.Font) (text : List Nat) (fuel : Nat) (hn : 0 < text.length) {c : Ctx} {ci : List Assoc.CI}
+    (e : Pass.shape font text fuel = .ok (some (c, ci))) :
+    ∀ j, 0 ≤ (c.seg.get j).before ∧ (c.seg.get j).before < text.length ∧ 0 ≤ (c.seg.get j).after ∧ (c.seg.get j).after < text.length ∧
+      0 ≤ (c.seg.get j).original ∧ (c.seg.get j).original < text.length :=
+  (Pass.shape_assoc font text fuel hn e).1
+
+/-- **C05 (char-info values).** After `associateChars` on a stream of `L` slots every char-info's `before` and `after`
+is −1 or a slot index below `L` -/
+theorem cinfo_values_are_slot_indices (n : Nat) (slots : List (Int × Int)) :
+    ∀ c ∈ (Assoc.associateChars n slots).2.1,
+      -1 ≤ c.before ∧ c.before < (slots.length : Int) ∧ -1 ≤ c.after ∧ c.after < (slots.length : Int) :=
+  Assoc.associateChars_cinfo_range n slots
+
+/-- `associateChars` keeps every slot's range inside the characters (it only widens ranges) -/
+theorem associateChars_keeps_slot_ranges (n : Nat) (slots : List (Int × Int))
+    (h : ∀ p ∈ slots, 0 ≤ p.1 ∧ p.1 < (n : Int) ∧ 0 ≤ p.2 ∧ p.2 < (n : Int)) :
+    ∀ q ∈ (Assoc.associateChars n slots).1, 0 ≤ q.1 ∧ q.1 < (n : Int) ∧ 0 ≤ q.2 ∧ q.2 < (n : Int) :=
+  Assoc.associateChars_ranges n slots h
 
 theorem every_opcode_keeps_ranges (n : Int) : OpsPreserve (PA n) := ops_PA n
 
